@@ -128,7 +128,7 @@ def do_replay(sc, prop, res, ob, seed):
     return path, found
 
 
-def write_evidence(prop, mod, tier, seed, results, audits, wall, violations, undecided, known_hit, sc, extra_assumptions):
+def write_evidence(prop, mod, tier, seed, results, audits, wall, violations, undecided, known_hit, sc, extra_assumptions, attempted=()):
     proved_groups = [r for r in results if r.group.kind in ("K1", "K2", "K3")]
     bounded_groups = [r for r in results if r.group.kind == "K5"]
     obligations = sum(len(r.obligations) for r in proved_groups)
@@ -159,6 +159,7 @@ def write_evidence(prop, mod, tier, seed, results, audits, wall, violations, und
         "loop_clause_injections": sc.injections,
         "known_findings_hit": known_hit,
         "undecided": undecided,
+        "attempted_not_decided": list(attempted),
         "samples": samples or ["(no obligations)"],
         "solver_seconds_total": round(sum(r.solver_s for r in results), 1),
         "explanation": getattr(mod, "EXPLANATION", ""),
@@ -213,6 +214,8 @@ def main(argv=None):
             return 2
         if a.only:
             groups = [g for g in groups if re.search(a.only, g.name)]
+        skipped_attempts = [g.name for g in groups if g.attempt_only and tier != "thorough"]
+        groups = [g for g in groups if not (g.attempt_only and tier != "thorough")]
         if a.list:
             for g in groups:
                 print(g.kind, g.name, g.entry, g.backends)
@@ -231,9 +234,13 @@ def main(argv=None):
         violations = []
         known_hit = []
         undecided = []
+        attempted = ["%s: attempted in the thorough tier only" % n for n in skipped_attempts]
         for r in results:
             if r.status == "undecided":
-                undecided.append("%s: %s" % (r.group.name, r.reason))
+                if r.group.attempt_only:
+                    attempted.append("%s: attempted, no back end finished (%s)" % (r.group.name, r.reason))
+                else:
+                    undecided.append("%s: %s" % (r.group.name, r.reason))
             if r.status == "failed":
                 if r.reason:
                     undecided.append("%s: %s" % (r.group.name, r.reason))
@@ -276,7 +283,7 @@ def main(argv=None):
         extra = []
         if hasattr(mod, "extra_assumptions"):
             extra = mod.extra_assumptions()
-        write_evidence(prop, mod, tier, seed, results, audits, wall, nviol, undecided, known_hit, sc, extra)
+        write_evidence(prop, mod, tier, seed, results, audits, wall, nviol, undecided, known_hit, sc, extra, attempted)
         nob = sum(len(r.obligations) for r in results)
         ndis = sum(1 for r in results for p in r.obligations if p["status"] == "SUCCESS")
         print("SUMMARY property=%s tier=%s groups=%d obligations=%d discharged=%d undecided_groups=%d known_findings=%d violations=%d wall=%.0fs" % (
